@@ -55,13 +55,35 @@ type World struct {
 	App     gen.AppKind
 	Init    *channel.Allocation
 	Data    channel.Data
+	// Split is the index of a participant whose two addresses are different keys (-1: none): no
+	// signature can be valid for it, every AddSig for that index must fail and change nothing.
+	Split int
 }
 
 // NewWorld creates a world with n participants.
 func NewWorld(r *rand.Rand, n, idx int, app gen.AppKind, assets int) *World {
 	ps := gen.Parties(r, n)
 	a := gen.AppOf(app)
-	w := &World{Params: gen.Params(r, ps, a), Parties: ps, Idx: idx, App: app}
+	w := &World{Params: gen.Params(r, ps, a), Parties: ps, Idx: idx, App: app, Split: -1}
+	w.Init = gen.Allocation(r, gen.Shape{Assets: assets, Parts: n, Small: true})
+	for i := range w.Init.Balances {
+		for j := range w.Init.Balances[i] {
+			w.Init.Balances[i][j] = big.NewInt(int64(5 + r.Intn(50)))
+		}
+	}
+	w.Data = gen.DataFor(r, a)
+	return w
+}
+
+// NewWorldSplit is NewWorld with a split-key participant (see World.Split); nil if the harness was
+// built without extra backends.
+func NewWorldSplit(r *rand.Rand, n, idx int, app gen.AppKind, assets, split int) *World {
+	ps := gen.SplitKeyParties(r, n, split)
+	if ps == nil {
+		return nil
+	}
+	a := gen.AppOf(app)
+	w := &World{Params: gen.Params(r, ps, a), Parties: ps, Idx: idx, App: app, Split: split}
 	w.Init = gen.Allocation(r, gen.Shape{Assets: assets, Parts: n, Small: true})
 	for i := range w.Init.Balances {
 		for j := range w.Init.Balances[i] {
@@ -484,7 +506,7 @@ func (e *Exec) Apply(op Op) (ret *Step) {
 		if len(m.StagedSig) < n {
 			m.StagedSig = make([]bool, n)
 		}
-		st.WantOK = inS(m.Phase) && staged != nil && !m.StagedSig[op.I] && op.Class == SigValid
+		st.WantOK = inS(m.Phase) && staged != nil && !m.StagedSig[op.I] && op.Class == SigValid && op.I != e.W.Split
 		i := channel.Index(op.I)
 		call = func() error { return e.D.AddSig(i, sig) }
 		if st.WantOK {
